@@ -54,6 +54,7 @@ type caseT struct {
 type flushRec struct {
 	Gen  uint64      `json:"gen"`
 	Muts [][2]string `json:"muts"`
+	Ops  []int32     `json:"ops"`
 }
 
 type obj = map[string]any
@@ -96,6 +97,7 @@ func (c *clientWrapper) SendRequest(ctx context.Context, addr string, req *tikvr
 		rec := flushRec{Gen: fr.Generation}
 		for _, m := range fr.Mutations {
 			rec.Muts = append(rec.Muts, [2]string{hx(m.Key), hx(m.Value)})
+			rec.Ops = append(rec.Ops, int32(m.Op))
 		}
 		c.mu.Lock()
 		c.flushes = append(c.flushes, rec)
